@@ -198,7 +198,18 @@ class Opq(ObjVal):
     __repr__ = show
 
 
-SYM = {"all": ("nY", "Ndat"), "ref": ("nR", "Ndat")}
+SYM = {"all": ("nY", "Ndat"), "ref": ("nR", "Ndat"), "ref-asc": ("nR", "Ndat")}
+
+
+class RefMask(ObjVal):
+    """a boolean mask over the channels that is True at the listed reference channels: selecting with it gives those channels in
+    ASCENDING channel order, each once - the listed order (and repetitions) of the index list are gone"""
+
+    def show(self):
+        return "mask(ref_ind)"
+
+    def __repr__(self):
+        return "RefMask"
 
 
 class Interp(seqdom.Interp):
@@ -227,6 +238,13 @@ class Interp(seqdom.Interp):
             inner = l_.value if isinstance(l_, ast.Attribute) and l_.attr == "size" else (l_.args[0] if isinstance(l_, ast.Call) and astq.src(l_.func) == "len" and l_.args else None)
             if inner is not None and isinstance(self.ev(inner, env), RefIdx):
                 return not isinstance(test.ops[0], ast.Eq)
+        # an index list holds integers: `idx.dtype == bool` is false, `np.issubdtype(idx.dtype, np.integer)` is true
+        if isinstance(test, ast.Compare) and len(test.ops) == 1 and isinstance(test.ops[0], (ast.Eq, ast.Is)) and isinstance(test.left, ast.Attribute) and test.left.attr == "dtype" \
+                and isinstance(self.ev(test.left.value, env), RefIdx) and astq.src(test.comparators[0]) in ("bool", "np.bool_", "numpy.bool_"):
+            return False
+        if isinstance(test, ast.Call) and astq.src(test.func).split(".")[-1] == "issubdtype" and len(test.args) == 2 and isinstance(test.args[0], ast.Attribute) \
+                and test.args[0].attr == "dtype" and isinstance(self.ev(test.args[0].value, env), RefIdx):
+            return astq.src(test.args[1]).split(".")[-1] in ("integer", "signedinteger", "number", "int64", "intp")
         if isinstance(test, ast.Call) and astq.src(test.func).split(".")[-1] in ("array_equal", "array_equiv") and len(test.args) == 2 \
                 and any(isinstance(self.ev(a_, env), RefIdx) for a_ in test.args):
             return False        # a general list of channels, not a ramp: the path of the gathered selection (a shortcut for ramps is R-shortcut's business)
@@ -235,6 +253,8 @@ class Interp(seqdom.Interp):
     def attr_hook(self, base, name, node):
         if isinstance(base, RefIdx) and name == "ndim":
             return I(P.c(1))
+        if isinstance(base, RefIdx) and name == "size":
+            return I(P.s("nR"))
         if isinstance(base, Rec) and name == "ndim":
             return I(P.c(2))                # the records are (channels x samples) arrays
         if isinstance(base, Rec) and name == "shape":
@@ -302,7 +322,19 @@ class Interp(seqdom.Interp):
         p = self.topoly(x)
         return int(p.const()) if p is not None and p.is_const() else None
 
+    def assign(self, t, v, env, node):
+        if isinstance(t, ast.Subscript) and isinstance(t.value, ast.Name) and isinstance(env.get(t.value.id), seqdom.Msk) and isinstance(v, K) and v.v is True:
+            m_ = env[t.value.id]
+            idx = self.ev_index(t.slice, env)
+            if m_.dom is None and not m_.neg and len(idx) == 1 and isinstance(idx[0], RefIdx):
+                env[t.value.id] = RefMask()
+                return
+        return super().assign(t, v, env, node)
+
     def index_hook(self, base, idx, node):
+        if isinstance(base, Rec) and base.role == "all" and not base.transposed and idx and isinstance(idx[0], RefMask) \
+                and all(isinstance(x, tuple) and x[0] == "slice" and x[1] is None and x[2] is None and x[3] is None for x in idx[1:]):
+            return Rec("ref-asc")           # Y[mask, :]: the reference channels in ascending channel order
         if isinstance(base, Rec) and base.role == "all" and not base.transposed and idx and isinstance(idx[0], RefIdx) \
                 and all(isinstance(x, tuple) and x[0] == "slice" and x[1] is None and x[2] is None and x[3] is None for x in idx[1:]):
             return Rec("ref")               # Y[ref_ind, :]: the reference records
